@@ -258,7 +258,13 @@ func (m *pkMon) check(op, res string, cur *pkSnap) {
 				created = p
 			}
 		}
-		immediate := (kind == "recv" && res == "ackok") || (kind != "recv" && res == "ok" && created == nil)
+		// a packet-forward (memo fw:c<k>) that succeeds returns a nil acknowledgement: the funds were received
+		// and sent on at once, nothing is stored
+		forwarded := kind == "recv" && res == "async" && strings.HasPrefix(kv["memo"], "fw:")
+		if forwarded {
+			m.r.Hit("mon/recv-forwarded")
+		}
+		immediate := (kind == "recv" && res == "ackok") || forwarded || (kind != "recv" && res == "ok" && created == nil)
 		if immediate {
 			uid := pkUID(typ, ci, seq)
 			m.released[uid]++
@@ -286,10 +292,13 @@ func (m *pkMon) check(op, res string, cur *pkSnap) {
 				}
 			}
 		}
-		if kind == "recv" && res == "async" && created == nil {
+		if kind == "recv" && res == "async" && created == nil && !forwarded {
 			m.violate("C04/pending_retrievable/async-receive-without-pending-packet", op)
 		}
-		if ri < 0 && res == "async" {
+		if kind == "recv" && forwarded && created != nil {
+			m.violate("C04/release_only_final/forwarded-receive-also-stored-as-pending", created.Name)
+		}
+		if ri < 0 && res == "async" && !forwarded {
 			m.violate("C04/non_rollapp_never_delayed/async-on-plain-channel", op)
 		}
 		if ri >= 0 && !canon && res != "ackerr" && res != "replay" && res != "badChannel" && res != "chanClosed" {
@@ -480,10 +489,47 @@ func (m *pkMon) checkRelease(prev, cur *pkSnap, q, p *pkPacket, op string) {
 		}
 	case "A", "T":
 		refund := q.Type == "T" || q.AckErr
-		if refund && !p.Failed {
+		if in, fwd := m.h.fwdOf[[2]uint64{uint64(q.Chan), q.Seq}]; fwd {
+			// the hub sent this packet as a packet-forward of the packet received on channel in[0]: the
+			// packet-forward middleware settles it towards the ORIGIN chain (escrow -> inbound channel's
+			// escrow, or burn / mint for vouchers) and acknowledges the inbound packet
+			m.r.Hit("mon/finalized-forwarded-packet")
+			if refund && !p.Failed {
+				resc := "e" + strconv.Itoa(int(in[0]))
+				if q.Unescrow {
+					addDelta(want, esc, q.Denom, q.Amount.Neg())
+					if q.Denom != 1+int(in[0]) {
+						addDelta(want, resc, q.Denom, q.Amount)
+					}
+				} else {
+					addDelta(want, resc, q.Denom, q.Amount)
+				}
+				if q.Orig != "-" {
+					// C05: "when the packet later finalizes the whole packet amount goes to the fulfiller"
+					if d := cur.Bal[benef][q.Denom].Sub(prev.Bal[benef][q.Denom]); !d.Equal(q.Amount) {
+						m.violate("C05/finalize_pays_fulfiller/fulfiller-not-paid-on-finalization/forwarded-packet",
+							fmt.Sprintf("%s: the order of this forwarded packet was fulfilled by %s (paid to the packet-forward intermediate address %s); its finalization credited the fulfiller %s instead of %s: the refund went towards the origin chain (channel c%d)",
+								q.Name, benef, q.Orig, d, q.Amount, in[0]))
+					}
+				}
+			}
+			if !p.Failed {
+				want0 := fmt.Sprintf("c%d.%d.%s", in[0], in[1], b2s(!refund))
+				found := false
+				for _, a := range cur.Ak {
+					found = found || a == want0
+				}
+				if !found {
+					m.violate("C04/release_exact/forwarded-packet-finalized-without-acknowledging-the-inbound-packet", q.Name+" expected ack "+want0)
+				}
+			}
+		} else if refund && !p.Failed {
 			addDelta(want, benef, q.Denom, q.Amount)
 			if q.Unescrow {
 				addDelta(want, esc, q.Denom, q.Amount.Neg())
+			}
+			if q.Orig != "-" {
+				m.r.Hit("mon/finalize-paid-fulfiller")
 			}
 		}
 		if p.Failed {
